@@ -1012,6 +1012,20 @@ func C12ShapeClasses(x *h.Ctx, ref *C12RefDef, built []C12Built) {
 			f := &d.Constraints.Fields[i]
 			if len(f.Path) > 1 {
 				x.Class("field:multi-path")
+				// per-path outcomes against every credential of the wallet, in path order (measured by the reference)
+				for _, b := range built {
+					oc := C12PathOutcomes(f, b.view)
+					x.Class("paths:" + strings.Join(oc, ","))
+					if C12EarlierFailsLaterPasses(oc) {
+						x.Class("multi-path:earlier-path-fails-later-path-passes")
+						if f.Optional != nil && *f.Optional {
+							x.Class("multi-path:earlier-path-fails-later-path-passes:optional-field")
+						}
+						if f.ID != nil {
+							x.Class("multi-path:earlier-path-fails-later-path-passes:named-field")
+						}
+					}
+				}
 			}
 			if f.Optional != nil && *f.Optional {
 				x.Class("field:optional")
